@@ -221,20 +221,20 @@ func (c tlruC) Exist(k interface{}) string  { return strconv.FormatBool(c.m.Exis
 func (c tlruC) Delete(k interface{}) string { return strconv.FormatBool(c.m.Delete(k)) }
 
 type runner struct {
-	mode        string // "", "remap", "cont", "lock"
-	n           uint64
-	rm, rm2     *remap.ReMap
-	lastX       []uint64
-	lastI       []int
-	kind        string
-	xhash       bool
-	wide, twin  container
-	lk          keylock.Locker
-	tlkI        keylock.TLocker[int64]
-	tlkS        keylock.TLocker[string]
-	sm          semap.SemMapper
-	hits        []corr.Hit
-	seen        map[string]bool
+	mode       string // "", "remap", "cont", "lock"
+	n          uint64
+	rm, rm2    *remap.ReMap
+	lastX      []uint64
+	lastI      []int
+	kind       string
+	xhash      bool
+	wide, twin container
+	lk         keylock.Locker
+	tlkI       keylock.TLocker[int64]
+	tlkS       keylock.TLocker[string]
+	sm         semap.SemMapper
+	hits       []corr.Hit
+	seen       map[string]bool
 }
 
 func (r *runner) hit(key, what string) {
